@@ -223,6 +223,7 @@ def run(ck):
     ck.run_rule("C04.R4", "bare numeric operands are local labels; compound operands: only a leading number", 6, rule_R4)
     from . import c17 as _c17
     ck.run_rule("C17.span", "tokens span their own text and Token.text() returns it (the branch encoder looks for '(' and ':' in the operand as written)", 150, _c17.rule_spans)
+    ck.run_rule("C03.R8", "a branch target that another file exports and this file defines further down is this file's own label (the export is not accepted before the own definitions are known)", 1, c03.rule_R8)
     ck.run_rule("G11.res", "branch offsets and immediates that depend on later labels are forced with wait() before their bits are placed in the opcode word", 2, escape.rule_G11_results)
     ck.run_rule("C03.R7", "address arithmetic behind PC-relative targets (LinearPolynomial algebra)", 18, c03.rule_R7)
     from ..rules import thunks
